@@ -176,7 +176,7 @@ int main(int argc, char** argv) {
         std::string logp = g_dir + "/tsan"; int nviol = 0;
         // rounds 0..R-1: bodies rotated over the threads; rounds 100+b: every thread runs body b (first use of the same lazily built state by all threads at once)
         std::vector<std::pair<int, int>> plan; for (int nt : {2, 4, 8, 16}) for (int round = 0; round < (T ? 12 : 4); round++) plan.push_back({nt, round});
-        for (int b = 0; b < NBODY; b++) { plan.push_back({4, 100 + b}); if (T) plan.push_back({16, 100 + b}); }
+        for (int b = 0; b < NBODY; b++) { plan.push_back({6, 100 + b}); if (T) plan.push_back({16, 100 + b}); }   // 6: more instances of one kind at once than any small per-process pool or quota (4) a library might keep
         for (auto& pl : plan) { int nt = pl.first, round = pl.second;
             fflush(stdout); fflush(stderr); pid_t p = fork();
             if (p == 0) {
